@@ -465,7 +465,11 @@ func (g *gen) reqPost() *Node {
 			m = append(m, KV{"body", g.strs([]string{"token", "key", "\"ok\": true"}, 3)})
 		}
 		if g.chance(50) {
-			m = append(m, KV{"status_code", nInt(int64(g.pick2([]int{200, 201, 404, 0, 500})))})
+			sc := g.pick2([]int{200, 201, 404, 0, 500})
+			if g.chance(40) {
+				sc = 100 + g.r.Intn(500)
+			}
+			m = append(m, KV{"status_code", nInt(int64(sc))})
 		}
 		if g.chance(50) {
 			m = append(m, KV{"size", nMap(g.shuffle([]KV{{"val", nInt(int64(g.r.Intn(20000)))}, {"op", nStr(g.pick([]string{"eq", "=", "lt", "<", "gt", ">"}))}}))})
@@ -527,7 +531,7 @@ func (g *gen) call(name string) *Node {
 				pm = append(pm, KV{"payload", g.strs([]string{"token", "result", "\"ok\""}, 3)})
 			}
 			if g.chance(60) {
-				pm = append(pm, KV{"status_code", nInt(int64(g.pick2([]int{200, 0, 14, 404})))})
+				pm = append(pm, KV{"status_code", nInt(int64(g.pick2([]int{200, 0, 14, 404, 1 + g.r.Intn(16), 100 + g.r.Intn(500)})))})
 			}
 			l = append(l, nMap(append(pm[:1], g.shuffle(pm[1:])...)))
 		}
@@ -539,10 +543,14 @@ func (g *gen) call(name string) *Node {
 func (g *gen) scenario(name string, steps []string) *Node {
 	m := []KV{{"name", nStr(name)}}
 	if g.chance(55) {
-		m = append(m, KV{"weight", nInt(int64(g.pick2([]int{1, 2, 3, 4, 6, 10, 50, 0, 100})))})
+		m = append(m, KV{"weight", nInt(int64(g.pick2([]int{1, 2, 3, 4, 6, 10, 50, 0, 100, 7, 9, 15, 33})))})
 	}
 	if g.chance(55) {
-		m = append(m, KV{"min_waiting_time", nInt(int64(g.pick2([]int{10, 1000, 0, 250, 1})))})
+		mwt := int64(g.pick2([]int{10, 1000, 0, 250, 1}))
+		if g.chance(50) {
+			mwt = int64(g.r.Intn(100000))
+		}
+		m = append(m, KV{"min_waiting_time", nInt(mwt)})
 	}
 	var reqs []string
 	n := 1 + g.r.Intn(5)
